@@ -78,6 +78,24 @@ def DistinctDataPorts (w : World) : Prop :=
 
 instance (w : World) : Decidable (DistinctDataPorts w) := by unfold DistinctDataPorts; infer_instance
 
+/-- (remote address, DATA port) of a `--trx` definition (address, base port, child index) -/
+def defKey (x : Nat × Nat × Nat) : Nat × Nat := (x.1, x.2.1 + 2 * x.2.2 + 2)
+
+/-- side condition on the `--trx` definitions given to `Application.__init__` (BTS and MS
+included): no two share an address and a DATA port `base + 2·child_idx + 2`.  E.g. `(a, 5700, 1)`
+and `(a, 5702, 0)` do: the duplicate check of `TRXList.add_trx` (address, base port, child index)
+accepts them, the second `bind()` fails at start-up (modelled-not-verified) -/
+def NoPortOverlap (extra : List (Nat × Nat × Nat)) : Prop :=
+  (([(addrBts, btsPort, 0), (addrBb, bbPort, 0)] ++ extra).map defKey).Nodup
+
+instance (extra : List (Nat × Nat × Nat)) : Decidable (NoPortOverlap extra) := by
+  unfold NoPortOverlap; infer_instance
+
+/-- every configured `fh` object is the result of `HoppingParams.__init__` (the only way
+`enable_fh` creates one) -/
+def FhSane (w : World) : Prop :=
+  ∀ t ∈ w.trxs, ∀ hp, t.fh = some hp → ∃ hsn maio ma, Hopping.pyInit hsn maio ma = .ok hp
+
 /-! ### C18: suppression -/
 
 /-- burst-loss parameters as `FAKE_DROP` can set them: amount ≥ 0, period ≥ 1 -/
